@@ -25,7 +25,7 @@ fn fnv64(bs: &[u8]) -> u64 {
 static KDF_CACHE: Mutex<Option<HashMap<(Vec<u8>, Vec<u8>, usize), Vec<u8>>>> = Mutex::new(None);
 
 /// PBKDF2-HMAC-SHA1, 1000 iterations (WinZip note, "key generation").
-fn kdf(pw: &[u8], salt: &[u8], len: usize) -> Vec<u8> {
+pub(super) fn kdf(pw: &[u8], salt: &[u8], len: usize) -> Vec<u8> {
     let key = (pw.to_vec(), salt.to_vec(), len);
     let mut g = KDF_CACHE.lock().unwrap();
     let m = g.get_or_insert_with(HashMap::new);
@@ -62,13 +62,13 @@ fn hmac_sha1(key: &[u8], msg: &[u8]) -> Vec<u8> {
     m.finalize().into_bytes().to_vec()
 }
 
-fn deflate_raw(data: &[u8]) -> Vec<u8> {
+pub(super) fn deflate_raw(data: &[u8]) -> Vec<u8> {
     let mut e = flate2::write::DeflateEncoder::new(Vec::new(), flate2::Compression::default());
     e.write_all(data).unwrap();
     e.finish().unwrap()
 }
 
-fn inflate_raw(data: &[u8]) -> Option<Vec<u8>> {
+pub(super) fn inflate_raw(data: &[u8]) -> Option<Vec<u8>> {
     let mut d = flate2::read::DeflateDecoder::new(data);
     let mut out = vec![];
     d.read_to_end(&mut out).ok()?;
@@ -76,10 +76,10 @@ fn inflate_raw(data: &[u8]) -> Option<Vec<u8>> {
 }
 
 /// salt ‖ verifier ‖ ciphertext ‖ authentication code; also the inner (compressed) bytes.
-struct Enc {
-    payload: Vec<u8>,
-    inner: Vec<u8>,
-    crc: u32,
+pub(super) struct Enc {
+    pub(super) payload: Vec<u8>,
+    pub(super) inner: Vec<u8>,
+    pub(super) crc: u32,
 }
 
 /// The inner (compressed) stream of an entry: the codec libraries called directly.
@@ -107,8 +107,13 @@ fn encrypt_inner(bits: usize, pw: &[u8], inner: Vec<u8>, plain: &[u8], salt: &[u
     Enc { payload, inner, crc: crc32fast::hash(plain) }
 }
 
+/// Compress with the inner method, then encrypt (used by the `clones` stream).
+pub(super) fn encrypt(bits: usize, method: u16, pw: &[u8], plain: &[u8], salt: &[u8]) -> Enc {
+    encrypt_inner(bits, pw, compress_inner(method, plain), plain, salt)
+}
+
 /// extra field 0x9901: size 7, version, "AE", strength, actual method
-fn aes_extra(ver: u16, strength: u8, method: u16) -> Vec<u8> {
+pub(super) fn aes_extra(ver: u16, strength: u8, method: u16) -> Vec<u8> {
     let mut e = vec![0x01, 0x99, 7, 0];
     e.extend_from_slice(&ver.to_le_bytes());
     e.extend_from_slice(b"AE");
@@ -120,19 +125,19 @@ fn aes_extra(ver: u16, strength: u8, method: u16) -> Vec<u8> {
 // ------------------------------------------------------------------------------------------
 // archive builder from raw fields
 
-struct Fields {
-    flag: u16,
-    cmethod: u16,
-    extra: Vec<u8>,
-    csize: u32,
-    usize_: u32,
-    crc: u32,
-    body: Vec<u8>,
-    tail_layout: bool,
-    pre: Option<Vec<u8>>,
+pub(super) struct Fields {
+    pub(super) flag: u16,
+    pub(super) cmethod: u16,
+    pub(super) extra: Vec<u8>,
+    pub(super) csize: u32,
+    pub(super) usize_: u32,
+    pub(super) crc: u32,
+    pub(super) body: Vec<u8>,
+    pub(super) tail_layout: bool,
+    pub(super) pre: Option<Vec<u8>>,
 }
 
-fn local_header(name: &[u8], flag: u16, method: u16, crc: u32, cs: u32, us: u32, extra: &[u8]) -> Vec<u8> {
+pub(super) fn local_header(name: &[u8], flag: u16, method: u16, crc: u32, cs: u32, us: u32, extra: &[u8]) -> Vec<u8> {
     let mut v = vec![];
     v.extend_from_slice(&0x04034b50u32.to_le_bytes());
     v.extend_from_slice(&51u16.to_le_bytes());
@@ -150,7 +155,7 @@ fn local_header(name: &[u8], flag: u16, method: u16, crc: u32, cs: u32, us: u32,
     v
 }
 
-fn central_header(name: &[u8], flag: u16, method: u16, crc: u32, cs: u32, us: u32, extra: &[u8], off: u32) -> Vec<u8> {
+pub(super) fn central_header(name: &[u8], flag: u16, method: u16, crc: u32, cs: u32, us: u32, extra: &[u8], off: u32) -> Vec<u8> {
     let mut v = vec![];
     v.extend_from_slice(&0x02014b50u32.to_le_bytes());
     v.extend_from_slice(&0x0333u16.to_le_bytes());
@@ -647,7 +652,7 @@ fn pull_probe(method: u16, d: &[u8]) -> (String, usize, usize, Vec<u8>) {
 }
 
 /// (table string, decrypted stream the AES layer can deliver when the verifier matches)
-fn tables2(bits: usize, csize_eff: u64, body: &[u8], trypw: Option<&[u8]>) -> (String, Option<Vec<u8>>) {
+pub(super) fn tables2(bits: usize, csize_eff: u64, body: &[u8], trypw: Option<&[u8]>) -> (String, Option<Vec<u8>>) {
     let empty = "ksalt=- kdf=- kkey=- ks=- mkey=- mh=0 mlen=0 mac=-".to_string();
     let (k, sl) = (bits / 8, bits / 16);
     let pw = match trypw { Some(p) => p, None => return (empty, None) };
@@ -776,7 +781,7 @@ pub fn aes_archive(ver: u16, bits: usize, method: u16, pw: &[u8], plain: &[u8], 
 }
 
 /// Minimal central-directory walk for the repo fixture (no crate code involved).
-fn fixture_entries(zipb: &[u8]) -> Vec<(String, Fields)> {
+pub(super) fn fixture_entries(zipb: &[u8]) -> Vec<(String, Fields)> {
     let rd16 = |o: usize| u16::from_le_bytes([zipb[o], zipb[o + 1]]) as usize;
     let rd32 = |o: usize| u32::from_le_bytes([zipb[o], zipb[o + 1], zipb[o + 2], zipb[o + 3]]);
     let mut e = zipb.len() - 22;
@@ -991,6 +996,34 @@ impl Stream for Aes {
                         g.push("read.short", read_line("err", &info, &f2, bits, cs as u64, Some(&pw), &b.enc.inner, &plain, "16"));
                         g.push("read.short.nopw", read_line("pwreq", &info, &f2, bits, cs as u64, None, &b.enc.inner, &plain, "16"));
                         g.push("layer.short", layer_line("err", &info, bits, cs as u64, &f2.body, &pw, &b.enc.inner, "16", "-"));
+                    }
+                }
+            }
+        }
+
+        // ---- the size FIELDS are attacker-writable and not covered by the authentication code: shrink the declared
+        // compressed size of a non-empty entry (to the bare overhead = "no ciphertext", and to a few bytes more) and
+        // leave everything else alone. Whatever is then delivered is not the content: it must be a read error.
+        for ver in [1u16, 2] {
+            for bits in [128usize, 192, 256] {
+                for (method, len) in [(0u16, 3000usize), (8, 3000), (0, 1), (12, 500), (93, 500)] {
+                    let mut r = next_rng();
+                    let pw = b"helloworld".to_vec();
+                    let plain = mk_plain(&mut r, len);
+                    let salt = r.bytes(bits / 16);
+                    let b = build_case(ver, bits, method, &pw, &plain, &salt, false, r.chance(1, 2));
+                    let overhead = (bits / 16 + 12) as u32;
+                    let full = b.f.csize;
+                    let mut sizes = vec![overhead, overhead + 1, overhead + 16, full - 1];
+                    sizes.sort();
+                    sizes.dedup();
+                    for cs in sizes {
+                        if cs >= full { continue; }
+                        let f2 = Fields { body: b.f.body.clone(), extra: b.f.extra.clone(), pre: b.f.pre.clone(), csize: cs, ..b.f };
+                        let info = format!("ae{ver}/{bits}/m{method}/len{len}/csize-field{cs}of{full}");
+                        let api = APIS[(cs as usize + bits / 64) % 5];
+                        g.push(&format!("read.size-field.{}", if cs == overhead { "overhead" } else { "shrunk" }),
+                            with_api(read_line("tamper", &info, &f2, bits, cs as u64, Some(&pw), &b.enc.inner, &plain, "4096"), api));
                     }
                 }
             }
@@ -1304,7 +1337,28 @@ impl Stream for Aes {
                     "plain" => if !resp.contains(&ok_plain) { fail("right password did not yield exactly the original bytes".into()); },
                     "pwreq" => if !resp.ends_with("file=err passwordrequired") { fail("no password did not yield the password-required error".into()); },
                     "wrongpw" => if is_ok { fail("a wrong password was accepted and data returned".into()); },
-                    "tamper" => if is_ok { fail("a modified non-empty entry was read to end-of-file without an error".into()); },
+                    "tamper" => if is_ok {
+                        // ONE way to get here is a known finding (K-I): the declared compressed size is the bare overhead, so
+                        // the reader takes the entry for empty and reports end-of-file at once - nothing decrypted, the code
+                        // never compared - although the entry (declared uncompressed size > 0) had content
+                        let extra = get_hex(&a, "extra").unwrap_or_default();
+                        let mut overhead = None;
+                        let mut o = 0usize;
+                        while o + 4 <= extra.len() {
+                            let l = u16::from_le_bytes([extra[o + 2], extra[o + 3]]) as usize;
+                            if extra[o] == 0x01 && extra[o + 1] == 0x99 && o + 11 <= extra.len() {
+                                overhead = match extra[o + 8] { 1 => Some(20u64), 2 => Some(24), 3 => Some(28), _ => None };
+                                break;
+                            }
+                            o += 4 + l;
+                        }
+                        let declared_empty = overhead.is_some() && get_u64(&a, "csize") == overhead;
+                        if declared_empty && resp.contains("read=ok len=0 ") && get_u64(&a, "usize").unwrap_or(0) > 0 {
+                            fail("K-I aes-declared-empty-unauthenticated: a non-empty entry whose declared compressed size was reduced to the bare overhead reads as a successful EMPTY entry; the authentication code is never compared (AesReaderValid::read returns Ok(0) at data_remaining == 0 before anything is verified), and under AE-2 there is no CRC behind it".into());
+                        } else {
+                            fail("a modified non-empty entry was read to end-of-file without an error".into());
+                        }
+                    },
                     "emptytamper" => if is_ok && !resp.contains("read=ok len=0 ") { fail("empty entry returned data".into()); },
                     "crcerr" => if !resp.contains("read=err io:other") { fail("AE-1 entry with a wrong CRC was not rejected with the checksum error".into()); },
                     "err" | "rejected" => if is_ok { fail("a malformed / truncated / refused entry was read successfully".into()); },
